@@ -216,12 +216,13 @@ func (e *Engine) newCell(t types.Type) *Cell {
 			z := e.zero(et)
 			block := make([]Cell, n)
 			for i := range c.kids {
-				block[i] = Cell{typ: et, val: z, epoch: e.epoch}
+				block[i] = Cell{typ: et, val: z, epoch: e.epoch, up: c, upIdx: int32(i)}
 				c.kids[i] = &block[i]
 			}
 		} else {
 			for i := range c.kids {
 				c.kids[i] = e.newCell(et)
+				c.kids[i].up, c.kids[i].upIdx = c, int32(i)
 			}
 		}
 		if len(c.kids) == 0 {
@@ -361,15 +362,31 @@ func (e *Engine) sliceTerms(s Slice) []*Term {
 func (e *Engine) assume(t *Term) {
 	e.pc = append(e.pc, t)
 	e.z.Assert(t)
-	e.known[t] = true
-	if t.Op == OBNot {
-		e.known[t.A[0]] = false
+	e.learn(t, true)
+}
+
+// learn records that c has the given truth value on this path (for c and for its
+// negation form, identically for forced and for replayed decisions).
+func (e *Engine) learn(c *Term, v bool) {
+	e.known[c] = v
+	if c.Op == OBNot {
+		e.known[c.A[0]] = !v
 	}
 }
+
+var debugModel = os.Getenv("GOSYM_DEBUG") != ""
 
 func (e *Engine) modelSays(c *Term) int {
 	if e.model == nil {
 		return -1
+	}
+	if debugModel {
+		e.ev.Eval(e.KB(true), e.model)
+		for i, p := range e.pc {
+			if e.ev.EvalMore(p, e.model) != 1 {
+				panic(fmt.Sprintf("model does not satisfy pc[%d] = %v; model %v; decisions %v prefix %v", i, p, e.model, e.decisions, e.prefix))
+			}
+		}
 	}
 	return int(e.ev.Eval(c, e.model))
 }
@@ -442,7 +459,7 @@ func (e *Engine) decide(c *Term) bool {
 		r, m := e.check(nc)
 		e.pos++
 		if r == Unsat {
-			e.known[c] = true
+			e.learn(c, true)
 			e.decisions = append(e.decisions, 1)
 			return true
 		}
@@ -458,7 +475,7 @@ func (e *Engine) decide(c *Term) bool {
 		r, m := e.check(c)
 		e.pos++
 		if r == Unsat {
-			e.known[c] = false
+			e.learn(c, false)
 			e.decisions = append(e.decisions, 0)
 			return false
 		}
@@ -478,13 +495,13 @@ func (e *Engine) decide(c *Term) bool {
 	}
 	e.pos++
 	if rt == Unsat && rf != Unsat {
-		e.known[c] = false
+		e.learn(c, false)
 		e.model = mf
 		e.decisions = append(e.decisions, 0)
 		return false
 	}
 	if rf == Unsat && rt != Unsat {
-		e.known[c] = true
+		e.learn(c, true)
 		e.model = mt
 		e.decisions = append(e.decisions, 1)
 		return true
@@ -644,31 +661,79 @@ func (e *Engine) loadPtr(p Ptr) Val {
 	if p.idx == nil || p.c == nil {
 		return e.load(e.resolve(p, "load"))
 	}
-	// ite chain over the admissible range, when elements are scalars
+	// ite chain over the admissible range, when elements are scalars or aggregates
+	// of scalars (e.g. utf8.acceptRanges)
 	kids := p.c.kids[p.lo : p.lo+p.n]
-	var ts []*Term
-	for _, k := range kids {
-		t, ok := k.val.(*Term)
-		if !ok || k.kids != nil {
-			ts = nil
-			break
-		}
-		ts = append(ts, t)
-	}
-	if ts == nil || len(ts) > 4096 {
+	if len(kids) > 4096 {
 		return e.load(e.resolve(p, "load"))
 	}
-	idx := p.idx
-	// run-length groups of identical terms, chained with unsigned <= on the run end
-	res := ts[len(ts)-1]
-	for i := len(ts) - 2; i >= 0; i-- {
-		if ts[i] == res || (ts[i].IsConst() && res.IsConst() && ts[i].C == res.C && ts[i].W == res.W) {
+	if v, ok := e.loadSym(kids, p.idx, p.lo); ok {
+		return v
+	}
+	return e.load(e.resolve(p, "load"))
+}
+
+func (e *Engine) loadSym(kids []*Cell, idx *Term, base int) (Val, bool) {
+	if len(kids) == 0 {
+		return nil, false
+	}
+	if kids[0].kids != nil || isAggType(kids[0].typ) {
+		nf := len(kids[0].kids)
+		a := Agg{f: make([]Val, nf)}
+		col := make([]*Cell, len(kids))
+		for f := 0; f < nf; f++ {
+			for i, k := range kids {
+				if len(k.kids) != nf {
+					return nil, false
+				}
+				col[i] = k.kids[f]
+			}
+			v, ok := e.loadSym(col, idx, base)
+			if !ok {
+				return nil, false
+			}
+			a.f[f] = v
+		}
+		return a, true
+	}
+	ts := make([]*Term, len(kids))
+	for i, k := range kids {
+		t, ok := k.val.(*Term)
+		if !ok || k.kids != nil {
+			return nil, false
+		}
+		ts[i] = t
+	}
+	return e.iteChain(ts, idx, base), true
+}
+
+func (e *Engine) unusedLoadTail(p Ptr, ts []*Term) *Term {
+	return e.iteChain(ts, p.idx, p.lo)
+}
+
+func sameTerm(a, b *Term) bool {
+	return a == b || (a.IsConst() && b.IsConst() && a.C == b.C && a.W == b.W)
+}
+
+// iteChain selects ts[idx-base]. Consecutive equal entries form one run; runs are
+// chained with unsigned <= on the run end, so a 256-entry table with a dozen runs
+// costs a dozen nodes.
+func (e *Engine) iteChain(ts []*Term, idx *Term, base int) *Term {
+	type run struct {
+		end int
+		v   *Term
+	}
+	var runs []run
+	for i, t := range ts {
+		if n := len(runs); n > 0 && sameTerm(runs[n-1].v, t) {
+			runs[n-1].end = i
 			continue
 		}
-		// entries <= i take the chain built from ts[i] downward
-		j := i
-		_ = j
-		res = e.tf.Ite(e.tf.Bin(OUle, idx, e.K(64, uint64(p.lo+i))), ts[i], res)
+		runs = append(runs, run{i, t})
+	}
+	res := runs[len(runs)-1].v
+	for r := len(runs) - 2; r >= 0; r-- {
+		res = e.tf.Ite(e.tf.Bin(OUle, idx, e.K(64, uint64(base+runs[r].end))), runs[r].v, res)
 	}
 	return res
 }
@@ -817,6 +882,9 @@ func (e *Engine) call(fn *ssa.Function, args []Val, bind []Val) Val {
 	}
 	if len(e.stack) > 400 {
 		panic(pathEnd{"budget", "call depth > 400 in " + fi.name})
+	}
+	if e.run.Trace {
+		fmt.Printf("%*scall %s\n", len(e.stack)*2, "", fi.name)
 	}
 	e.stack = append(e.stack, fn)
 	// frames live on an arena with stack discipline (no per-call heap allocation)
@@ -1127,6 +1195,31 @@ func (e *Engine) builtin(name string, a []Val, c *ssa.CallCommon) Val {
 		return e.tf.Ite(lt, y, x)
 	case "print", "println":
 		return nil
+	case "String", "Slice": // unsafe.String(ptr, len), unsafe.Slice(ptr, len)
+		p := a[0].(Ptr)
+		n := e.concretize(e.tf.Resize(a[1].(*Term), 64, true), "unsafe."+name+" length")
+		if n == 0 {
+			return Slice{str: name == "String"}
+		}
+		c := e.resolve(p, "unsafe."+name)
+		if c.up == nil {
+			if n == 1 {
+				arr := &Cell{typ: types.NewArray(c.typ, 1), kids: []*Cell{c}, epoch: c.epoch}
+				return Slice{arr: arr, len: 1, cap: 1, str: name == "String"}
+			}
+			e.goPanic("invalid pointer conversion: unsafe.%s over a non-array object", name)
+		}
+		off := int(c.upIdx)
+		if n < 0 || off+n > len(c.up.kids) {
+			e.goPanic("invalid pointer conversion: unsafe.%s(%d) exceeds the underlying array", name, n)
+		}
+		return Slice{arr: c.up, off: off, len: n, cap: n, str: name == "String"}
+	case "StringData", "SliceData":
+		s := a[0].(Slice)
+		if s.arr == nil || s.off >= len(s.arr.kids) {
+			return Ptr{}
+		}
+		return Ptr{c: s.arr.kids[s.off]}
 	}
 	e.unsupported("builtin %s(%T)", name, a[0])
 	return nil
@@ -1378,6 +1471,15 @@ func (e *Engine) allocGuard(n *Term, elemSize int) {
 }
 
 func (e *Engine) selectVal(vals []Val, idx *Term, base int) Val {
+	all := make([]*Term, 0, len(vals))
+	for _, v := range vals {
+		if t, ok := v.(*Term); ok {
+			all = append(all, t)
+		}
+	}
+	if len(all) == len(vals) {
+		return e.iteChain(all, idx, base)
+	}
 	res, ok := vals[len(vals)-1].(*Term)
 	if !ok {
 		i := e.concretize(idx, "index")
